@@ -32,6 +32,13 @@ def gen_corpus(rng: random.Random, today: dt.date) -> tuple[ZDir, dict]:
     for nm in names:
         d = rng.choice(DIRS)
         rels.append((d + "/" if d else "") + nm + ".zo")
+    if rng.random() < 0.35:
+        base = rng.choice(rels).split("/")[-1]
+        for d in rng.sample(["", "sub", "d2", "other"], 4):
+            cand = (d + "/" if d else "") + base
+            if cand not in rels:
+                rels.append(cand)
+                break
     link_names = [r[:-3] for r in rels]
     near_miss = [x for x in ["a_b", "axb", "a_bc", "sub/a_b", "prj", "prjx", "p", "nope"]]
     zids: list = []
@@ -75,9 +82,13 @@ def gen_corpus(rng: random.Random, today: dt.date) -> tuple[ZDir, dict]:
             used.add(key)
             v = rng.choice(rng.choice([INT_VALUES, DATE_VALUES, STR_VALUES]))
             it.words.append(W(f"{key}::{v}", props=((key, v),), form="prop"))
-        if rng.random() < 0.15:
+        if rng.random() < 0.2:
             key = rng.choice(["ID", "RID"])
             v = f"g{len(owners)}"
+            if owners and rng.random() < 0.4:
+                # the same identifier value under the OTHER key (ID::v and RID::v are different things)
+                k0, v0 = rng.choice(owners)
+                key, v = ("RID" if k0 == "ID" else "ID"), v0
             owners.append((key, v))
             it.words.append(W(f"{key}::{v}", props=((key, v),), form="prop"))
         for _ in range(rng.choice([0, 0, 0, 1, 1, 2])):
